@@ -324,9 +324,10 @@ def run_all_harnesses(pid, spec, seed, tier, ev, replay=None):
             ev.setdefault("extra", {})[h["bin"]] = meta["extra"]
         for c, v in zip(cases, verdicts):
             c["harness"] = h["bin"]
+            okmask = h.get("okmask", 2)
             if c.get("direct_violation"):
-                failing.append((h["bin"], c, v | 2))
-            elif v & 2:
+                failing.append((h["bin"], c, v | okmask))
+            elif v & okmask:
                 failing.append((h["bin"], c, v))
             elif v & 1:
                 disagree.append((h["bin"], c, v))
